@@ -93,6 +93,9 @@ func main() {
 				}
 				rep.Count("entry_batch_"+strconv.FormatUint(uint64(o.Batch), 10), 1)
 				rep.Count("entry_rtype_"+strconv.Itoa(int(o.RType)), 1)
+				if o.Dflt {
+					rep.Count("entry_default_options_omitted", 1)
+				}
 			}
 		}
 		reuse := 0
